@@ -40,6 +40,10 @@ pub uninterp spec fn slot_key(t: int, id: PageNodeID, i: int) -> Seq<u8>;
 // does the tree hold an entry with this key, and is it a nested bucket?
 pub uninterp spec fn has_entry(t: int, k: Seq<u8>) -> bool;
 pub uninterp spec fn entry_is_bucket(t: int, k: Seq<u8>) -> bool;
+// identity of an entry (its key, kind and payload), of the entry in a slot and of the entry the tree holds for a key
+pub uninterp spec fn leaf_tag(l: Leaf) -> int;
+pub uninterp spec fn slot_tag(t: int, id: PageNodeID, i: int) -> int;
+pub uninterp spec fn entry_tag(t: int, k: Seq<u8>) -> int;
 pub enum Leaf<'a> {
     Bucket(Bytes<'a>, BucketMeta),
     Kv(Bytes<'a>, Bytes<'a>),
@@ -57,6 +61,7 @@ impl<'a> PageNode<'a> {
             r is Some <==> slot_exists(self.g_tree@, self.g_id@, index as int),
             r matches Some(l) ==> (l is Kv) == slot_is_kv(self.g_tree@, self.g_id@, index as int),
             r matches Some(Leaf::Bucket(n, _)) ==> key_view(n) == slot_key(self.g_tree@, self.g_id@, index as int),
+            r matches Some(l) ==> leaf_tag(l) == slot_tag(self.g_tree@, self.g_id@, index as int),
     { unimplemented!() }
 }
 impl<'n> Node<'n> {
@@ -89,6 +94,7 @@ fn search(key: &[u8], page_id: PageID, b: &mut InnerBucket) -> (r: (bool, Vec<Se
         r.0 ==> slot_key(old(b).tree@, r.1@.last().id, r.1@.last().index as int) == key@,
         final(b).buckets == old(b).buckets,
         r.0 ==> slot_is_kv(old(b).tree@, r.1@.last().id, r.1@.last().index as int) == !entry_is_bucket(old(b).tree@, key@),
+        r.0 ==> slot_tag(old(b).tree@, r.1@.last().id, r.1@.last().index as int) == entry_tag(old(b).tree@, key@),
 { unimplemented!() }
 impl<'b> InnerBucket<'b> {
     #[verifier::external_body]
@@ -221,4 +227,8 @@ impl<'b> InnerBucket<'b> {
     #[verifier::external_body]
     fn from_meta(meta: BucketMeta, pages: Pages) -> (r: InnerBucket<'b>)
     { unimplemented!() }
+}
+// the page is already in this transaction's pending list (it was freed earlier in the transaction)
+spec fn freed_by_tx(fl: TxFreelist, p: u64) -> bool {
+    fl.inner.pending_pages@.contains_key(fl.meta.tx_id) && fl.inner.pending_pages@[fl.meta.tx_id]@.contains(p)
 }
